@@ -98,6 +98,8 @@ class _SpecEnv:
 H = 'props.c13'
 
 
+MIR_KINDS = ('lib', 'bin')
+
 def jobs(tier):
     js = []
     firsts = [n for n, _ in menu('small')]
@@ -124,6 +126,10 @@ def jobs(tier):
             for f in firsts:
                 js.append({'name': 'history on->off %s 3 lines first=%s' % (md, f), 'harness': (H, 'h_pair'),
                            'params': {'nlines': 3, 'menu_name': 'small', 'fixed': [f], 'mode': md, 'history': True, 'inc_len': 2, 'out_len': 1}, 'split': 4})
+    # the mode / options the binary hands to the library for every flag combination (real main() from the bin crate's MIR)
+    for sub in (None, 'Verify'):
+        js.append({'name': 'cli: options passed to the run for sub-command %s x all flags' % sub, 'harness': ('props.c17', 'h_cli'),
+                   'mir': ('lib', 'bin'), 'params': {'sub': sub, 'txtpp_file': None}})
     from . import project
     js += project.jobs('C13', tier)
     return js
